@@ -4,6 +4,7 @@ set -e
 cd "$(dirname "$0")/lean"
 exes=""
 for f in Driver/*.lean; do
-  exes="$exes drv_$(basename "$f" .lean | tr 'A-Z' 'a-z')"
+  e="drv_$(basename "$f" .lean | tr 'A-Z' 'a-z')"
+  if grep -q "^name = \"$e\"" lakefile.toml; then exes="$exes $e"; fi
 done
 lake build I2N $exes
